@@ -16,7 +16,7 @@ THOROUGH_DEPTH = 20      # thorough tier = this many times the base thorough bud
 ROUTES = ["Quaternion.normalize", "Quaternion.product", "Quaternion.__mul__", "Quaternion.__matmul__", "Quaternion.__mul__(Quaternion)",
           "orientation.q_prod", "Quaternion.conjugate", "Quaternion.inverse", "Quaternion.inv", "Quaternion.mult_L",
           "Quaternion.mult_R", "orientation.q_mult_L", "orientation.q_mult_R", "orientation.q_conj",
-          "Quaternion(order=S)", "QuaternionArray(order=S)", "associativity", "norm-multiplicative", "derived object"]
+          "Quaternion(order=S)", "QuaternionArray(order=S)", "associativity", "norm-multiplicative", "derived object", "object changed in place"]
 REGIONS = {"versor": 100, "nonversor": 100, "near_unit": 60, "special": 60, "whole": 60}
 PROBES = [("ahrs.common.quaternion", "Quaternion.product"), ("ahrs.common.orientation", "q_prod"),
           ("ahrs.common.quaternion", "Quaternion.mult_L"), ("ahrs.common.quaternion", "Quaternion.mult_R"),
@@ -133,6 +133,30 @@ def check(case, ctx):
         ctx.le("a derived Quaternion multiplies as its own values (left and right operand, method and operator)",
                max(rel(dprod, rq.qmul(want, bb), nw * nb), rel(dmul, rq.qmul(want, bb), nw * nb), rel(pd, rq.qmul(bb, want), nw * nb), rel(pmul, rq.qmul(bb, want), nw * nb)), REL,
                dict(det, left=dprod, right=pd), route=r)
+    # ---- one object changed in place between two reads (q *= -1, q /= 2, q[:] = other values, normalize()): every accessor read before the change
+    # must answer for the new values afterwards (nothing remembered from the first read)
+    def readers(X):
+        return (np.array([X.w, X.x, X.y, X.z], float), np.asarray(X.conjugate, float).copy(), np.asarray(X.conj, float).copy(), np.asarray(X.product(bb.copy()), float),
+                np.asarray(X.mult_L(), float).copy(), np.asarray(X.mult_R(), float).copy(), np.asarray(X.to_array(), float).copy(), float(np.linalg.norm(np.asarray(X.v))))
+    for lab, change, want in (("q *= -1", lambda X: X.__imul__(-1.0), -aa), ("q /= 2", lambda X: X.__itruediv__(2.0), aa / 2.0),
+                              ("q[:] = other values", lambda X: X.__setitem__(slice(None), bb.copy()), bb), ("normalize()", lambda X: X.normalize(), aa / na)):
+        r = "object changed in place"
+
+        def run_(change=change):
+            X = Q(aa.copy(), versor=False)
+            first = readers(X)
+            change(X)
+            return first, readers(X)
+        outm = call(run_)
+        if not ctx.returned(outm, route=r):
+            continue
+        _, (wxyz, cj, cj2, pr, L_, R_, arr, nv) = outm.value
+        nw = np.linalg.norm(want)
+        det = {"changed_by": lab, "values_now": want}
+        ctx.le("after an in-place change w, x, y, z, to_array() and |v| are those of the new values", max(rel(wxyz, want, nw), rel(arr, want, nw), abs(nv - np.linalg.norm(want[1:])) / nw), REL, dict(det, wxyz=wxyz), route=r)
+        ctx.le("after an in-place change conjugate / conj are those of the new values", max(rel(cj, rq.qconj(want), nw), rel(cj2, rq.qconj(want), nw)), REL, dict(det, conjugate=cj), route=r)
+        ctx.le("after an in-place change the product and the product matrices are those of the new values",
+               max(rel(pr, rq.qmul(want, bb), nw * nb), rel(L_ @ bb, rq.qmul(want, bb), nw * nb), rel(R_ @ bb, rq.qmul(bb, want), nw * nb)), REL, det, route=r)
     # associativity and norm through the library's own product
     out = call(lambda: (Q(np.asarray(A.product(bb.copy())), versor=False).product(cc.copy()),
                         A.product(np.asarray(Q(bb.copy(), versor=False).product(cc.copy())))))
